@@ -12,6 +12,7 @@ events) on which C19's rules are stated; the shape of the code (inline stages, s
 row[0] vs tuple targets) does not matter.
 """
 import ast
+import re
 
 from .loader import norm, AnalysisError
 
@@ -415,6 +416,19 @@ class Selector:
                 and not any(isinstance(x, (ast.Call, ast.Await, ast.Yield, ast.NamedExpr)) for x in ast.walk(n.args[0])):
             # ", ".join(name for name, _ in table): message text put together from names; nothing is called, imported or bound
             return [(st, ("?", "joined text"))]
+        if f == "set" and not n.args and not n.keywords:
+            return [(st, ("set", ()))]
+        if short == "add" and isinstance(n.func, ast.Attribute) and isinstance(n.func.value, ast.Name) and len(n.args) == 1 \
+                and not n.keywords and st.get(n.func.value.id) is not None and st.get(n.func.value.id)[0] == "set":
+            res = []
+            for s, v in self.ev(n.args[0], st):
+                if v is None:
+                    res.append((s, None))
+                    continue
+                s = s.copy()
+                s.set(n.func.value.id, ("set", tuple(s.get(n.func.value.id)[1]) + (v,)))
+                res.append((s, ("none",)))
+            return res
         if short == "append" and isinstance(n.func, ast.Attribute) and isinstance(n.func.value, ast.Name) \
                 and len(n.args) == 1 and not n.keywords and st.get(n.func.value.id) is not None \
                 and st.get(n.func.value.id)[0] == "tuple":
@@ -531,6 +545,28 @@ class Selector:
                 # os.environ.get(K) is None exactly when K is not set
                 return [(s, (not tr) if pos else tr) for s, tr in self.fork(("env_set", other[1]), st, node)]
             return [(s, tr if pos else not tr) for s, tr in self.fork(("isnone", other), st, node)]
+        if isinstance(op, (ast.In, ast.NotIn)) and b[0] == "set":
+            pos = isinstance(op, ast.In)
+            if not b[1]:
+                return [(st, not pos)]              # nothing is in an empty set
+            # `<table>.get(<name of the current row>) in <names that failed so far>`: the row is derived from one that failed.
+            # By the lemma checked in R-C19-9 (every entry of the table: the derived module imports its base's module first),
+            # importing it would fail the same way - the skip is a failed import that is not attempted.
+            m_ = re.match(r"^(\w+)\.get\((\w+)\)$", a[1]) if a[0] == "?" and isinstance(a[1], str) else None
+            cur = st.get(m_.group(2)) if m_ else None
+            if m_ and cur is not None and cur[0] == "rowname" and cur[2] == "cur" and all(x[0] == "rowname" for x in b[1]):
+                key = ("import_ok", cur[1], cur[2])
+                out = []
+                for s2, tr in self.fork(("derived_base_failed", m_.group(1), cur[1], cur[2]), st, node):
+                    if tr:
+                        s2 = s2.copy()
+                        if s2.decided(key) is None:
+                            s2.conds.append((key, False))
+                        s2.events.append(("derived-skip", m_.group(1), node))
+                        s2.events.append(("import-failed", key, node))
+                    out.append((s2, tr if pos else not tr))
+                return out
+            return [(s, tr if pos else not tr) for s, tr in self.fork(("?", norm(node)), st, node)]
         if isinstance(op, (ast.In, ast.NotIn)):
             pos = isinstance(op, ast.In)
             if b[0] == "sysmodules" and a[0] == "rowmod":
